@@ -2293,11 +2293,21 @@ def _merge_list_extension(fn):
         k = 0
         while k + 1 < len(stmts):
             a, b = stmts[k], stmts[k + 1]
+            # x.append(e) / x.extend(<list>) on the name just bound to a fresh list is x += [e] / x += <list>
+            if (isinstance(a, ast.Assign) and len(a.targets) == 1 and isinstance(a.targets[0], ast.Name) and isinstance(b, ast.Expr) and isinstance(b.value, ast.Call)
+                    and isinstance(b.value.func, ast.Attribute) and isinstance(b.value.func.value, ast.Name) and b.value.func.value.id == a.targets[0].id
+                    and b.value.func.attr in ("append", "extend") and len(b.value.args) == 1 and not b.value.keywords and _fresh_list_expr(a.value, ln)):
+                arg = b.value.args[0]
+                if b.value.func.attr == "append":
+                    b = ast.AugAssign(target=ast.Name(id=a.targets[0].id, ctx=ast.Store()), op=ast.Add(), value=ast.List(elts=[arg], ctx=ast.Load()))
+                elif _is_list_expr(arg, ln):
+                    b = ast.AugAssign(target=ast.Name(id=a.targets[0].id, ctx=ast.Store()), op=ast.Add(), value=arg)
             if (isinstance(a, ast.Assign) and len(a.targets) == 1 and isinstance(a.targets[0], ast.Name)
                     and isinstance(b, ast.AugAssign) and isinstance(b.op, ast.Add) and isinstance(b.target, ast.Name) and b.target.id == a.targets[0].id
                     and _fresh_list_expr(a.value, ln) and _is_list_expr(b.value, ln) and a.targets[0].id not in _names_loaded(b.value)
                     and a.targets[0].id not in _names_loaded(a.value)):
-                stmts[k] = ast.Assign(targets=[a.targets[0]], value=ast.BinOp(left=a.value, op=ast.Add(), right=b.value))
+                empty = isinstance(a.value, ast.List) and not a.value.elts
+                stmts[k] = ast.Assign(targets=[a.targets[0]], value=(b.value if empty and _fresh_list_expr(b.value, ln) else ast.BinOp(left=a.value, op=ast.Add(), right=b.value)))
                 del stmts[k + 1]
                 continue
             k += 1
